@@ -210,11 +210,46 @@ struct Cnt
 };
 int Cnt::live = 0;
 
-static const std::string& val(const std::string& s) { return s; }
-static const std::string& val(const Cnt& c) { return c.v; }
+// a class constructible from ANYTHING (unconstrained explicit template constructor, like std::any): whatever it is built
+// from that is not a string or another Any is recorded as such, so a "copy" that really converted the optional shows
+struct Any
+{
+    std::string v;
+    Any(const Any&) = default;
+    Any(Any&&) = default;
+    Any& operator=(const Any&) = default;
+    Any& operator=(Any&&) = default;
+    template <class U>
+    explicit Any(U&& u)
+    {
+        using D = std::decay_t<U>;
+        if constexpr (std::is_same<D, Any>::value) v = u.v;
+        else if constexpr (std::is_same<D, std::string>::value) v = u;
+        else if constexpr (std::is_constructible<bool, U&&>::value) v = std::string("<converted:") + (static_cast<bool>(u) ? "1" : "0") + ">";
+        else v = "<converted>";
+    }
+};
+// a class implicitly convertible from bool
+struct FromBool
+{
+    bool b;
+    FromBool(bool x) : b(x) {}
+};
+
+// the wire value (a byte string) <-> T.  bool / FromBool: one byte 00 or 01; int: decimal text
+static std::string val(const std::string& s) { return s; }
+static std::string val(const Cnt& c) { return c.v; }
+static std::string val(const Any& a) { return a.v; }
+static std::string val(bool b) { return std::string(1, b ? '\x01' : '\x00'); }
+static std::string val(const FromBool& f) { return std::string(1, f.b ? '\x01' : '\x00'); }
+static std::string val(int i) { return std::to_string(i); }
 static std::string mk(const std::string& s, const std::string*) { return s; }
 static Cnt mk(const std::string& s, const Cnt*) { return Cnt(s); }
-static std::string live_obs(const std::string*) { return "-"; }
+static Any mk(const std::string& s, const Any*) { return Any(s); }
+static bool mk(const std::string& s, const bool*) { return !s.empty() && s[0] != 0; }
+static FromBool mk(const std::string& s, const FromBool*) { return FromBool(!s.empty() && s[0] != 0); }
+static int mk(const std::string& s, const int*) { return std::stoi(s); }
+template <typename T> static std::string live_obs(const T*) { return "-"; }
 static std::string live_obs(const Cnt*) { return std::to_string(Cnt::live); }
 
 template <typename T>
@@ -253,12 +288,32 @@ static std::string run(int n, const std::string& opsw)
             std::size_t i = arg(1);
             std::string r = "-";
             if (i >= sl.size()) return "BADCASE";
+            // the source is offered as const lvalue / NON-CONST lvalue / rvalue: three overload-resolution paths each
             if (f[0] == "va") { const T x = mk(unhex(f.at(2)), tag); *sl[i] = x; }                 // operator=(const T&)
+            else if (f[0] == "vn") { T x = mk(unhex(f.at(2)), tag); *sl[i] = x; }                  // non-const lvalue T
             else if (f[0] == "vm") { *sl[i] = mk(unhex(f.at(2)), tag); }                           // operator=(T&&)
             else if (f[0] == "vc") { const T x = mk(unhex(f.at(2)), tag); auto nw = std::make_unique<O>(x); sl[i] = std::move(nw); }
+            else if (f[0] == "vq") { T x = mk(unhex(f.at(2)), tag); auto nw = std::make_unique<O>(x); sl[i] = std::move(nw); }
             else if (f[0] == "vr") { auto nw = std::make_unique<O>(mk(unhex(f.at(2)), tag)); sl[i] = std::move(nw); }
             else if (f[0] == "as") { std::size_t j = arg(2); if (j >= sl.size()) return "BADCASE"; const O& src = *sl[j]; *sl[i] = src; }
-            else if (f[0] == "cc") { std::size_t j = arg(2); if (j >= sl.size()) return "BADCASE"; auto nw = std::make_unique<O>(*sl[j]); sl[i] = std::move(nw); }
+            else if (f[0] == "an") { std::size_t j = arg(2); if (j >= sl.size()) return "BADCASE"; O& src = *sl[j]; *sl[i] = src; }
+            else if (f[0] == "ar")
+            {
+                std::size_t j = arg(2);
+                if (j >= sl.size()) return "BADCASE";
+                O tmp(static_cast<const O&>(*sl[j])); // an independent optional with the same content ...
+                *sl[i] = std::move(tmp);              // ... offered as an rvalue
+            }
+            else if (f[0] == "cc") { std::size_t j = arg(2); if (j >= sl.size()) return "BADCASE"; const O& src = *sl[j]; auto nw = std::make_unique<O>(src); sl[i] = std::move(nw); }
+            else if (f[0] == "cn") { std::size_t j = arg(2); if (j >= sl.size()) return "BADCASE"; O& src = *sl[j]; auto nw = std::make_unique<O>(src); sl[i] = std::move(nw); }
+            else if (f[0] == "cr")
+            {
+                std::size_t j = arg(2);
+                if (j >= sl.size()) return "BADCASE";
+                O tmp(static_cast<const O&>(*sl[j]));
+                auto nw = std::make_unique<O>(std::move(tmp));
+                sl[i] = std::move(nw);
+            }
             else if (f[0] == "ae") { *sl[i] = O(); }
             else if (f[0] == "dc") { auto nw = std::make_unique<O>(); sl[i] = std::move(nw); }
             else if (f[0] == "rd")
@@ -312,6 +367,10 @@ static std::string run_inner(const std::vector<std::string>& w0)
     if (w.size() == 3 && w[0] == "q") return "Q " + q::run(std::stoi(w[1]), w[2]);
     if (w.size() == 4 && w[0] == "o" && w[1] == "s") return "O " + o::run<std::string>(std::stoi(w[2]), w[3]);
     if (w.size() == 4 && w[0] == "o" && w[1] == "c") return "O " + o::run<o::Cnt>(std::stoi(w[2]), w[3]);
+    if (w.size() == 4 && w[0] == "o" && w[1] == "b") return "O " + o::run<bool>(std::stoi(w[2]), w[3]);
+    if (w.size() == 4 && w[0] == "o" && w[1] == "i") return "O " + o::run<int>(std::stoi(w[2]), w[3]);
+    if (w.size() == 4 && w[0] == "o" && w[1] == "a") return "O " + o::run<o::Any>(std::stoi(w[2]), w[3]);
+    if (w.size() == 4 && w[0] == "o" && w[1] == "f") return "O " + o::run<o::FromBool>(std::stoi(w[2]), w[3]);
     if (w.size() == 2 && w[0] == "e") return "E " + e::run(w[1]);
     return "BADCASE";
 }
